@@ -12,6 +12,7 @@ A *template* (units/<name>.rs.tpl) is ordinary Verus text plus `//@` directives:
   //@  spec                              payload = requires/ensures clauses, inserted before the body
   //@  loop <k>                          payload = invariant/decreases of the k-th loop (after rewrites)
   //@  before <anchor> / after <anchor>  payload = proof text put before/after the line containing anchor
+  //@  afterloop <k>                     payload put right after the closing brace of the k-th loop
   //@  atstart / atend                   payload put right after the opening brace / before the tail expression line
   //@end
 
@@ -169,6 +170,9 @@ BUILTIN = {
     # R9: for X in V.drain(..) {
     'R9': (r'\bfor\s+(\w+)\s+in\s+([\w\.]+)\.drain\(\.\.\)\s*\{',
            r'let mut __d_\1 = drain_all(&mut \2); while __d_\1.has_next() { let \1 = __d_\1.take_next();'),
+    # R6v: for X in V {   (V a &Vec / Vec identifier or field path) -> index loop
+    'R6v': (r'\bfor\s+(\w+)\s+in\s+&?([\w\.]+)\s*\{',
+            r'let mut __iv_\1: usize = 0; while __iv_\1 < \2.len() { let \1 = &\2[__iv_\1]; __iv_\1 += 1;'),
     # R6m: for X in V.iter_mut() {   -> index loop handing out &mut V[i] in order
     'R6m': (r'\bfor\s+(\w+)\s+in\s+([\w\.]+)\.iter_mut\(\)\s*\{',
             r'let mut __im_\1: usize = 0; while __im_\1 < \2.len() { let \1 = &mut \2[__im_\1]; __im_\1 += 1;'),
@@ -443,6 +447,19 @@ def _do_extract(res, repo_root, head, block, canary, tpl_path):
                 lp = body_open + loops[k - 1].end()
                 lb = rscan.find_body_open(masked, lp, '{')
                 t.insert(lb, '\n' + '\n'.join(d.payload) + '\n')
+            elif d.kind == 'afterloop':
+                k = int(d.arg)
+                masked = rscan.mask(t.s)
+                m = re.search(r'\bfn\s+(\w+)', masked)
+                body_open = rscan.find_body_open(masked, m.end(), '{')
+                loops = [mm for mm in re.finditer(r'\b(while|for|loop)\b', masked[body_open:])]
+                if k < 1 or k > len(loops):
+                    raise ExtractError("%s: %s has %d loops, overlay wants loop %d" % (file_rel, selector, len(loops), k))
+                lp = body_open + loops[k - 1].end()
+                # the loop body is the first '{' at depth 0 that is followed by a block (skip inserted spec text: it has no bare '{')
+                lb = rscan.find_body_open(masked, lp, '{')
+                lc = rscan.match_close(masked, lb)
+                t.insert(lc + 1, '\n' + '\n'.join(d.payload) + '\n')
             elif d.kind in ('before', 'after'):
                 anchor = d.arg
                 occ = None
